@@ -16,3 +16,223 @@ Proof. exact desc_lookup_agree. Qed.
 
 Theorem C06_bundled_coherent : db_coherent database = true.
 Proof. exact bundled_coherent. Qed.
+
+(* ==== VALUE LEVEL (Proofs/CrossFormat.v): what the binary reader returns for a value and what the XML reader returns for it are related by
+   nan_equiv (structural equality, two NaN float components related) for every value in cross_scope — an executable predicate over all 40
+   constructors that excludes exactly the classes where the two formats are PROVED to differ: CFrame/OptionalCFrame whose rotation norm_rot moves
+   (within epsilon of a basis, -0.0 in an exact basis: binary snaps, XML keeps nine floats), Font with cached face Some "", Content::Object (XML
+   writer panics), sequences with < 2 keypoints (XML reader rejects); BrickColor / Tags / MaterialColors agree after the XML reader's conversion
+   (typed scope).  Both read-backs are the right-hand sides of the existing per-format round-trip theorems (not re-proved).  Lifted to property
+   lists and maps (same canonical names by the lookup agreement; migrations), composed with the binary whole-file theorem (cross_props_binfile: the
+   only file-level difference is the regenerated nil/colliding UniqueId), and instantiated for values under a descriptor of another type
+   (Color3 in a byte-colour property, Int32->Int64, Float32->Float64).  When a migration FAILS the binary reader drops the property and the XML
+   reader fails the decode (inside the recorded class `unmigratable`). *)
+From Coq Require Import RelationClasses.
+From RbxVerif Require Import Utf8 Rotation BrickColor Attr Tags BinValues BinFile CodecDom XmlEvents XmlValues XmlFile XmlCompound2
+  BinValuesFacts3 BinRoundTrip CrossFormat.
+
+Theorem C06_nan_equiv_Equivalence :
+  RelationClasses.Equivalence nan_equiv.
+Proof. exact nan_equiv_Equivalence. Qed.
+
+Theorem C06_cross_format_values_agree :
+  forall (c : enc_ctx) (dc : dec_ctx) (o : xoracle) (v : value),
+       xml_oracle_ok o ->
+       cross_scope (dc_lim dc) v = true ->
+       forall vb vx : value, bin_back c dc v vb -> xml_back o v vx -> nan_equiv vb vx.
+Proof. exact cross_format_values_agree. Qed.
+
+Theorem C06_cross_format_values_exist :
+  forall (c : enc_ctx) (dc : dec_ctx) (o : xoracle) (v : value),
+       xml_oracle_ok o ->
+       cross_scope (dc_lim dc) v = true ->
+       xml_writes o v -> exists vb vx : value, bin_back c dc v vb /\ xml_back o v vx /\ nan_equiv vb vx.
+Proof. exact cross_format_values_exist. Qed.
+
+Theorem C06_cross_format_values_agree_typed :
+  forall (c : enc_ctx) (dc : dec_ctx) (o : xoracle) (v : value),
+       xml_oracle_ok o ->
+       cross_scope_typed (dc_lim dc) v = true ->
+       forall vb vx : value, bin_back c dc v vb -> xml_back_typed o v vx -> nan_equiv vb vx.
+Proof. exact cross_format_values_agree_typed. Qed.
+
+Theorem C06_cross_format_values_exist_typed :
+  forall (c : enc_ctx) (dc : dec_ctx) (o : xoracle) (v : value),
+       xml_oracle_ok o ->
+       cross_scope_typed (dc_lim dc) v = true ->
+       xml_writes o v -> exists vb vx : value, bin_back c dc v vb /\ xml_back_typed o v vx /\ nan_equiv vb vx.
+Proof. exact cross_format_values_exist_typed. Qed.
+
+Theorem C06_cross_cframe_differs :
+  forall (c : enc_ctx) (dc : dec_ctx) (o : xoracle) (cf : cframe) (vb vx : value),
+       display_law o all32 ->
+       cframe_ok cf = true ->
+       rot_fixed (cf_rot cf) = false ->
+       bin_back c dc (VCFrame cf) vb ->
+       xml_back o (VCFrame cf) vx ->
+       vb = VCFrame {| cf_pos := cf_pos cf; cf_rot := BinValuesFacts3.norm_rot (cf_rot cf) |} /\
+       vx = VCFrame (norm_cf cf) /\ ~ nan_equiv vb vx.
+Proof. exact cross_cframe_differs. Qed.
+
+Theorem C06_cross_ocf_differs :
+  forall (c : enc_ctx) (dc : dec_ctx) (o : xoracle) (cf : cframe) (vb vx : value),
+       display_law o all32 ->
+       cframe_ok cf = true ->
+       rot_fixed (cf_rot cf) = false ->
+       bin_back c dc (VOptionalCFrame (Some cf)) vb ->
+       xml_back o (VOptionalCFrame (Some cf)) vx ->
+       vb = VOptionalCFrame (Some {| cf_pos := cf_pos cf; cf_rot := BinValuesFacts3.norm_rot (cf_rot cf) |}) /\
+       vx = VOptionalCFrame (Some (norm_cf cf)) /\ ~ nan_equiv vb vx.
+Proof. exact cross_ocf_differs. Qed.
+
+Theorem C06_cross_font_differs :
+  forall (c : enc_ctx) (dc : dec_ctx) (o : xoracle) (f : font) (vb vx : value),
+       BinValuesFacts3.font_ok (dc_lim dc) f = true ->
+       cached_empty f = true ->
+       bin_back c dc (VFont f) vb ->
+       xml_back o (VFont f) vx ->
+       vb =
+       VFont
+         {| fo_family := fo_family f; fo_weight := fo_weight f; fo_style := fo_style f; fo_cached := None |} /\
+       vx = VFont f /\ ~ nan_equiv vb vx.
+Proof. exact cross_font_differs. Qed.
+
+Theorem C06_cross_brickcolor_differs :
+  forall (c : enc_ctx) (dc : dec_ctx) (o : xoracle) (n : N) (vb vx : value),
+       brick_scope n = true ->
+       bin_back c dc (VBrickColor n) vb ->
+       xml_back o (VBrickColor n) vx ->
+       vb = VBrickColor n /\
+       vx = VInt32 (Z.of_N n) /\ ~ nan_equiv vb vx /\ try_convert o vx XT_BrickColor = Ok vb.
+Proof. exact cross_brickcolor_differs. Qed.
+
+Theorem C06_cross_content_object_differs :
+  forall (c : enc_ctx) (dc : dec_ctx) (o : xoracle) (r : N),
+       ~ xml_writes o (VContent (CObject r)) /\
+       (forall vx : value, ~ xml_back o (VContent (CObject r)) vx) /\
+       (in_i32 (ref_id c r) = true ->
+        BinValuesFacts3.lim_ok (dc_lim dc) 4 = true ->
+        bin_back c dc (VContent (CObject r)) (VContent (CObject (dc_resolve dc (ref_id c r))))).
+Proof. exact cross_content_object_differs. Qed.
+
+Theorem C06_cross_nseq_empty_differs :
+  forall (c : enc_ctx) (dc : dec_ctx) (o : xoracle),
+       bin_back c dc (VNumberSequence []) (VNumberSequence []) /\
+       xml_writes o (VNumberSequence []) /\ (forall vx : value, ~ xml_back o (VNumberSequence []) vx).
+Proof. exact cross_nseq_empty_differs. Qed.
+
+Theorem C06_cross_names :
+  forall (d : db) (ty : wire_type) (class pname : bytes),
+       db_coherent d = true ->
+       (exists canon ser : pdesc,
+          find_desc_xml d (S_ class) (S_ pname) = Ok (Some (canon, ser)) /\
+          find_canonical_property d ty class pname =
+          Ok (Some (B (pd_name canon), dtype_vt (pd_type canon), mig_of canon))) \/
+       find_desc_xml d (S_ class) (S_ pname) = Ok None /\
+       find_canonical_property d ty class pname = Ok (Some (pname, to_default_rbx_type ty, None)) \/
+       find_desc_xml d (S_ class) (S_ pname) = Ok None /\ find_canonical_property d ty class pname = Ok None.
+Proof. exact cross_names. Qed.
+
+Theorem C06_cross_props :
+  forall (p : dec_params) (itemsB itemsX : list pitem) (MX : list (bytes * value)),
+       Forall2 pitem_rel itemsB itemsX ->
+       xml_props (dp_font p) (dp_brick p) itemsX = Some MX ->
+       props_rel (bin_props p itemsB) MX /\
+       (forall k : bytes, opt_rel nan_equiv (bfind k (bin_props p itemsB)) (bfind k MX)).
+Proof. exact cross_props. Qed.
+
+Theorem C06_cross_dom_props :
+  forall (c : enc_ctx) (dc : dec_ctx) (o : xoracle) (p : dec_params) (l lB lX : list pitem)
+         (MX : list (bytes * value)),
+       xml_oracle_ok o ->
+       Forall (fun x : pitem => cross_scope_typed (dc_lim dc) (pi_val x) = true) l ->
+       Forall2
+         (fun x b : pitem =>
+          pi_name b = pi_name x /\ pi_mig b = pi_mig x /\ bin_back c dc (pi_val x) (pi_val b)) l lB ->
+       Forall2
+         (fun x b : pitem =>
+          pi_name b = pi_name x /\ pi_mig b = pi_mig x /\ xml_back_typed o (pi_val x) (pi_val b)) l lX ->
+       xml_props (dp_font p) (dp_brick p) lX = Some MX ->
+       props_rel (bin_props p lB) MX /\
+       (forall k : bytes, opt_rel nan_equiv (bfind k (bin_props p lB)) (bfind k MX)).
+Proof. exact cross_dom_props. Qed.
+
+Theorem C06_cross_props_binfile :
+  forall (p : dec_params) (R : column -> col_read) (ct : bytes * type_info) 
+         (k : nat) (iprops : list (bytes * value)) (itemsX : list pitem) (MX : list (bytes * value)),
+       uid_norm p (collect_props (read_props p R ct k)) iprops ->
+       Forall2 pitem_rel (bin_items R ct k) itemsX ->
+       xml_props (dp_font p) (dp_brick p) itemsX = Some MX ->
+       props_rel iprops MX \/
+       (exists (a b : N) (c : Z),
+          bfind UNIQUE_ID MX = Some (VUniqueId a b c) /\
+          props_rel iprops (bupd UNIQUE_ID (dp_fresh_uid p) MX)).
+Proof. exact cross_props_binfile. Qed.
+
+Theorem C06_cross_migration_failure_differs :
+  forall (p : dec_params) (props : list (bytes * value)) (name newname : bytes) (op : migop) (v : value),
+       migrate (dp_font p) (dp_brick p) op v = None ->
+       bfind newname (collect_props props) = None ->
+       add_prop p props name (Some (newname, op)) v = props /\
+       xml_add_prop (dp_font p) (dp_brick p) (collect_props props) name (Some (newname, op)) v = None.
+Proof. exact cross_migration_failure_differs. Qed.
+
+Theorem C06_cross_color3_as_color3uint8 :
+  forall (c : enc_ctx) (dc : dec_ctx) (o : xoracle) (r g b : f32) (cty : N) (vb vx : value),
+       cty = VT_Color3 \/ cty = VT_Color3uint8 ->
+       (forall x : f32, xo_quant o x = Some (ec_quant c x) /\ ec_quant c x < 256) ->
+       bin_back_at WColor3uint8 cty c dc (VColor3 r g b) vb ->
+       xml_back_as o XT_Color3uint8 cty (VColor3 r g b) vx ->
+       vb = VColor3uint8 (ec_quant c r) (ec_quant c g) (ec_quant c b) /\ vx = vb.
+Proof. exact cross_color3_as_color3uint8. Qed.
+
+Theorem C06_cross_int32_as_int64 :
+  forall (c : enc_ctx) (dc : dec_ctx) (o : xoracle) (z : Z) (vb vx : value),
+       in_i64 z = true ->
+       bin_back_at WInt64 VT_Int64 c dc (VInt32 z) vb ->
+       xml_back_as o XT_Int64 VT_Int64 (VInt32 z) vx -> vb = VInt64 z /\ vx = vb.
+Proof. exact cross_int32_as_int64. Qed.
+
+Theorem C06_cross_float32_as_float64 :
+  forall (c : enc_ctx) (dc : dec_ctx) (o : xoracle) (x : f32) (vb vx : value),
+       float64_text_law o ->
+       f32_ok x = true ->
+       bin_back_at WFloat64 VT_Float64 c dc (VFloat32 x) vb ->
+       xml_back_as o XT_Float64 VT_Float64 (VFloat32 x) vx -> vb = VFloat64 (f64_of_f32 x) /\ nan_equiv vb vx.
+Proof. exact cross_float32_as_float64. Qed.
+
+Theorem C06_samples_agree :
+  Forall
+         (fun v : value =>
+          exists vb vx : value,
+            bin_back BinValuesFacts.ectx0 BinValuesFacts.ctx0 v vb /\ xml_back o2 v vx /\ nan_equiv vb vx)
+         samples.
+Proof. exact samples_agree. Qed.
+
+Theorem C06_samples_typed_agree :
+  Forall
+         (fun v : value =>
+          exists vb vx : value,
+            bin_back BinValuesFacts.ectx0 BinValuesFacts.ctx0 v vb /\
+            xml_back_typed o2 v vx /\ nan_equiv vb vx) samples_typed.
+Proof. exact samples_typed_agree. Qed.
+
+Theorem C06_cframe_negzero_differs :
+  exists vb vx : value,
+         bin_back BinValuesFacts.ectx0 BinValuesFacts.ctx0 (VCFrame cf_negzero) vb /\
+         xml_back o2 (VCFrame cf_negzero) vx /\ ~ nan_equiv vb vx.
+Proof. exact cframe_negzero_differs. Qed.
+
+Theorem C06_one_format_only :
+  forall (c : enc_ctx) (dc : dec_ctx) (o : xoracle),
+       (forall (x y : Z) (vb : value), ~ bin_back c dc (VVector2int16 x y) vb) /\
+       (forall (a b : vec3) (vb : value), ~ bin_back c dc (VRegion3 a b) vb) /\
+       (forall (a b : vec3) (vx : value), ~ xml_back o (VRegion3 a b) vx) /\
+       (forall (a b : Z * Z * Z) (vb : value), ~ bin_back c dc (VRegion3int16 a b) vb) /\
+       (forall (a b : Z * Z * Z) (vx : value), ~ xml_back o (VRegion3int16 a b) vx) /\
+       (forall (m : list (bytes * value)) (vb : value), ~ bin_back c dc (VAttributes m) vb) /\
+       (forall (t : bytes) (n : N) (vx : value), ~ xml_back o (VEnumItem t n) vx) /\
+       (forall (r : N) (vx : value), ~ xml_back o (VRef r) vx) /\
+       (forall (s : bytes) (vx : value), ~ xml_back o (VSharedString s) vx).
+Proof. exact one_format_only. Qed.
+
